@@ -188,8 +188,8 @@ func argMatches(c hx.Col, r int, v driver.Value) bool {
 	}
 }
 
-var simpleNames = []string{"a", "b", "c", "col1", "Col2", "x_y", "id", "value"}
-var quotedNames = []string{"a", "b c", "Col 2", "ä", "x,y", "a(b)", "sel;ect", "1$", "?", "tab\tname", "e"}
+var simpleNames = []string{"a", "b", "c", "col1", "Col2", "x_y", "id", "value", "pct%", "%d", "100%s"}
+var quotedNames = []string{"a", "b c", "Col 2", "ä", "x,y", "a(b)", "sel;ect", "1$", "?", "tab\tname", "e", "100%", "a %d b", "%s", "%!v"}
 
 func TestC19(t *testing.T) {
 	rapid.Check(t, func(t *rapid.T) {
